@@ -44,6 +44,21 @@ structure Inv (s : FState) (P : List Id) : Prop where
   topSome : ∀ l, s.lastSent = some l → topOf s.db.libRef.id P = l.id
   topNone : s.lastSent = none → P = [] ∧ ∀ e ∈ s.db.entries, e.sent = false
   cache : CacheOK s
+  initOk : ∀ i n, s.db.initNum = some (i, n) → i ≠ ""
+
+theorem numOf_empty (db : DB) (hw : WfEntries db) (hi : ∀ i n, db.initNum = some (i, n) → i ≠ "") :
+    db.numOf? "" = none := by
+  unfold DB.numOf?
+  cases hf : db.find "" with
+  | some e => exact absurd (find_id db "" e hf) (hw.1 e (find_mem db "" e hf)).2.1
+  | none =>
+    simp only
+    cases hin : db.initNum with
+    | none => rfl
+    | some p =>
+      obtain ⟨i, n⟩ := p
+      have := hi i n hin
+      simp [this]
 
 /-! ### transport along buffers with the same blocks -/
 
@@ -505,5 +520,286 @@ theorem switch_decomp (cfg : Config) (hundo : cfg.matches .undo = true) (s : FSt
               rw [this]
               exact List.mem_map.mpr ⟨e, he, rfl⟩
             · exact hsentb
+
+
+/-! ### moving the LIB and purging -/
+
+theorem wf_purge (db : DB) (r : Ref) (kept : Nat) (hw : WfEntries db) : WfEntries ((db.moveLIB r).purgeBeforeLIB kept) := by
+  refine ⟨?_, ?_⟩
+  · intro e he
+    exact hw.1 e (by simp only [DB.purgeBeforeLIB, DB.moveLIB, List.mem_filter] at he; exact he.1)
+  · simp only [DB.purgeBeforeLIB, DB.moveLIB]
+    exact List.Nodup.sublist (List.Sublist.map _ (List.filter_sublist)) hw.2
+
+theorem find_movePurge (db : DB) (r : Ref) (kept : Nat) (x : Id) (e : Entry) (h : db.find x = some e)
+    (hn : r.num - kept ≤ e.blk.num) : ((db.moveLIB r).purgeBeforeLIB kept).find x = some e :=
+  find_purge (db.moveLIB r) kept x e h hn
+
+theorem isPath_movePurge (db : DB) (r : Ref) (kept : Nat) (bottom : Id) (ids : List Id) (h : IsPath db bottom ids)
+    (hn : ∀ x ∈ ids, ∀ e, db.find x = some e → r.num - kept ≤ e.blk.num) :
+    IsPath ((db.moveLIB r).purgeBeforeLIB kept) bottom ids := by
+  induction ids generalizing bottom with
+  | nil => trivial
+  | cons i t ih =>
+    cases hf : db.find i with
+    | none => have := h.2.1; rw [hf] at this; cases this
+    | some e =>
+      have hf' := find_movePurge db r kept i e hf (hn i (by simp) e hf)
+      refine ⟨?_, by rw [hf']; rfl, ih i h.2.2 (fun x hx => hn x (by simp [hx]))⟩
+      rw [link_of_find _ i e hf', ← link_of_find db i e hf]; exact h.1
+
+theorem isSent_movePurge (db : DB) (r : Ref) (kept : Nat) (x : Id) (e : Entry) (h : db.find x = some e)
+    (hn : r.num - kept ≤ e.blk.num) : isSent ((db.moveLIB r).purgeBeforeLIB kept) x = isSent db x := by
+  unfold isSent; rw [find_movePurge db r kept x e h hn, h]
+
+theorem mem_movePurge (db : DB) (r : Ref) (kept : Nat) (e : Entry) (h : e ∈ ((db.moveLIB r).purgeBeforeLIB kept).entries) :
+    e ∈ db.entries := by
+  simp only [DB.purgeBeforeLIB, DB.moveLIB, List.mem_filter] at h; exact h.1
+
+/-- heights after the LIB moved to a stored block whose reference carries its real number -/
+theorem heights_movePurge (db : DB) (hw : WfEntries db) (hh : Heights db) (r : Ref) (kept : Nat) (er : Entry)
+    (hf : db.find r.id = some er) (hnum : er.blk.num = r.num) : Heights ((db.moveLIB r).purgeBeforeLIB kept) := by
+  have hlib : ((db.moveLIB r).purgeBeforeLIB kept).libRef = r := rfl
+  refine ⟨?_, ?_, ?_⟩
+  · intro e he p hp hpar
+    exact hh.1 e (mem_movePurge db r kept e he) p (mem_movePurge db r kept p hp) hpar
+  · intro e he hpar
+    rw [hlib] at hpar ⊢
+    have := hh.1 e (mem_movePurge db r kept e he) er (find_mem db _ er hf) (by rw [hpar, find_id db _ er hf])
+    omega
+  · intro e he hid
+    rw [hlib] at hid ⊢
+    have hmem := mem_movePurge db r kept e he
+    have := find_of_mem db hw e hmem
+    rw [hid, hf] at this
+    injection this with this
+    rw [← this]; exact hnum
+
+
+theorem hasNew_inv (db : DB) (fsb : Nat) (R : Ref) (h : (db.hasNewIrreversibleSegment fsb R).1 = true) :
+    db.libRef.id ≠ R.id ∧ ∃ seg r, db.reversibleSegment fsb R = (some seg, r) ∧ seg ≠ [] ∧
+      (db.hasNewIrreversibleSegment fsb R).2.1 = seg ∧
+      (db.hasNewIrreversibleSegment fsb R).2.2 = db.stalledInSegment seg := by
+  unfold DB.hasNewIrreversibleSegment at h ⊢
+  by_cases h1 : (db.libRef.id == R.id) = true
+  · simp [h1] at h
+  · simp only [h1, Bool.false_eq_true, if_false] at h ⊢
+    refine ⟨by simpa using h1, ?_⟩
+    cases hr : db.reversibleSegment fsb R with
+    | mk l r =>
+      rw [hr] at h
+      cases l with
+      | none => simp at h
+      | some seg =>
+        cases seg with
+        | nil => simp at h
+        | cons c cs => exact ⟨c :: cs, r, rfl, by simp, rfl, rfl⟩
+
+theorem processIrr_st (cfg : Config) (a : Acc) (seg : List Entry) (head : Ref) (actual : Id → Option Blk) :
+    ∃ seen, (processIrr cfg a seg head actual).st = { a.st with lastLIBSeen := seen } := by
+  have hph : ∀ (a : Acc) evs, (phase a evs).st = a.st := by
+    intro a evs; unfold phase; split <;> rfl
+  rw [processIrr_eq]
+  split
+  · exact ⟨a.st.lastLIBSeen, rfl⟩
+  · split
+    · exact ⟨a.st.lastLIBSeen, by rw [hph]⟩
+    · unfold setSeen
+      cases seg.getLast? with
+      | none => exact ⟨a.st.lastLIBSeen, by simp only; rw [hph]⟩
+      | some l => exact ⟨l.blk.ref, by simp only; rw [hph]⟩
+
+theorem inv_seen (s : FState) (Q : List Id) (x : Ref) (h : Inv s Q) : Inv { s with lastLIBSeen := x } Q :=
+  ⟨h.noInit, h.libNe, h.wf, h.heights, h.path, h.libNotin, h.pSent, h.topSome, h.topNone, h.cache, h.initOk⟩
+
+theorem irrEvents_sb (cfg : Config) (hirr : cfg.matches .irreversible = true) (seg : List Entry) (head : Ref)
+    (actual : Id → Option Blk) :
+    (irrEvents cfg seg head actual).map sbOf = (seg.map (fun e => (actual e.blk.id).getD e.blk)).map (fun b => (Step.irreversible, b)) := by
+  unfold irrEvents
+  simp only [hirr, if_true]
+  apply List.ext_getElem
+  · simp
+  · intro i h1 h2
+    simp [sbOf]
+
+theorem processStalled_run (cfg : Config) (a : Acc) (st : List Entry) (head : Ref) (hf : a.failed = false)
+    (hn : a.failAt = none) :
+    ∃ t, (processStalled cfg a st head).evs = a.evs ++ t ∧ ∀ c : CS, c.run t = some c := by
+  unfold processStalled
+  simp only [hf, Bool.false_eq_true, if_false]
+  have := phase_nofail a (if cfg.matches .stalled then
+      st.mapIdx (fun i e => (⟨.stalled, e.blk, head, a.st.lastLIBSeen, none, i, st.length⟩ : Event)) else []) ⟨hf, hn⟩
+  refine ⟨_, this.2.2.1, ?_⟩
+  intro c
+  unfold CS.run
+  split
+  · have : (st.mapIdx (fun i e => (⟨.stalled, e.blk, head, a.st.lastLIBSeen, none, i, st.length⟩ : Event))).map sbOf =
+        (st.map (·.blk)).map (fun b => (Step.stalled, b)) := by
+      apply List.ext_getElem
+      · simp
+      · intro i h1 h2; simp [sbOf]
+    rw [this]; exact runSB_stalled c _
+  · rfl
+
+
+/-- **moving the LIB**: the blocks announced irreversible are the oldest pending blocks of the consumer, in order;
+    what remains pending is the chain from the new LIB to the head, and it survives the purge -/
+theorem advance_inv (cfg : Config) (hirr : cfg.matches .irreversible = true) (a : Acc) (hf : a.failed = false)
+    (hn : a.failAt = none) (b : Blk) (Q : List Id) (hI : Inv a.st Q) (last : Blk) (hls : a.st.lastSent = some last)
+    (hcr : ∀ c cs, a.st.cache = some (c :: cs) → c.blk.parent = a.st.db.libRef.id)
+    (hlibok : ∀ e, a.st.db.find (a.st.db.blockInChain last.ref last.lib).id = some e →
+      e.blk.num = (a.st.db.blockInChain last.ref last.lib).num) :
+    (advanceAcc cfg a b none).failed = false ∧ (advanceAcc cfg a b none).failAt = none ∧
+    ∃ t Q', (advanceAcc cfg a b none).evs = a.evs ++ t ∧
+      (⟨a.st.db.libRef.id, Q⟩ : CS).run t = some ⟨(advanceAcc cfg a b none).st.db.libRef.id, Q'⟩ ∧
+      Inv (advanceAcc cfg a b none).st Q' := by
+  have triv : ∀ r : Acc, r = a → r.failed = false ∧ r.failAt = none ∧
+      ∃ t Q', r.evs = a.evs ++ t ∧ (⟨a.st.db.libRef.id, Q⟩ : CS).run t = some ⟨r.st.db.libRef.id, Q'⟩ ∧ Inv r.st Q' := by
+    intro r hr; subst hr
+    exact ⟨hf, hn, [], Q, by simp, rfl, hI⟩
+  have hlibT : a.st.db.hasLIB = true := hasLIB_of_id _ hI.libNe
+  unfold advanceAcc
+  simp only [hf, Bool.false_eq_true, if_false, hls, hlibT, Bool.not_true]
+  generalize hR : a.st.db.blockInChain last.ref last.lib = R at hlibok
+  by_cases hRe : (R.id == "") = true
+  · rw [if_pos hRe]; exact triv a rfl
+  rw [if_neg hRe, advanceTo_eq]
+  by_cases hmove : (!(a.st.db.hasNewIrreversibleSegment cfg.fsb R).1 && (none : Option Entry).isNone) = true
+  · rw [if_pos hmove]; exact triv a rfl
+  rw [if_neg hmove]
+  have hnew : (a.st.db.hasNewIrreversibleSegment cfg.fsb R).1 = true := by simpa using hmove
+  obtain ⟨hne, seg, r, hrev, hsegne, hsegeq, hstalleq⟩ := hasNew_inv a.st.db cfg.fsb R hnew
+  have hr : r = true := revSegAux_reach _ _ _ _ _ _ _ _ hlibT hrev
+  subst hr
+  obtain ⟨hsp, hstop, hsn, _, hsfa⟩ := reversibleSegment_sound _ _ _ _ hrev
+  have hsn' : a.st.db.libRef.id ∉ seg.map (·.blk.id) := by
+    intro hm; obtain ⟨x, hx, hxe⟩ := List.mem_map.mp hm; exact hsn x hx hxe
+  have hRne : R.id ≠ "" := by simpa using hRe
+  -- the new LIB is a pending block
+  have hRseg : R.id ∈ seg.map (·.blk.id) := by
+    cases hs : seg.map (·.blk.id) with
+    | nil => simp at hs; exact absurd hs hsegne
+    | cons c cs => rw [← hstop, hs]; exact topOf_cons_mem _ c cs
+  obtain ⟨er, hfer⟩ : ∃ er, a.st.db.find R.id = some er := by
+    have := isPath_present _ _ _ hsp R.id hRseg
+    cases hfr : a.st.db.find R.id with
+    | none => rw [hfr] at this; cases this
+    | some er => exact ⟨er, rfl⟩
+  have herhigh := heights_path _ hI.heights _ a.st.db.libRef.num _ hsp hI.heights.2.1 R.id hRseg er hfer
+  have hQlen := isPath_length_le _ _ Q hI.path hI.libNotin
+  have hQne := wf_path_ne _ hI.wf _ Q hI.path
+  have hW : a.st.db.walkDown (a.st.db.entries.length + 2) (topOf a.st.db.libRef.id Q) =
+      Q.reverse ++ a.st.db.walkDown (a.st.db.entries.length + 2 - Q.length) a.st.db.libRef.id := by
+    have := walkDown_path _ _ Q hI.path hI.libNe hQne (a.st.db.entries.length + 2 - Q.length)
+    rw [show a.st.db.entries.length + 2 - Q.length + Q.length = a.st.db.entries.length + 2 by omega] at this
+    exact this
+  obtain ⟨tail, htail⟩ := walkDown_head a.st.db (a.st.db.entries.length + 1 - Q.length) a.st.db.libRef.id
+  rw [show a.st.db.entries.length + 1 - Q.length + 1 = a.st.db.entries.length + 2 - Q.length by omega] at htail
+  have hbelow := heights_below_lib _ hI.wf hI.heights (a.st.db.entries.length + 2 - Q.length)
+  rw [htail, List.tail_cons] at hbelow
+  rw [htail] at hW
+  have hRwalk : R.id ∈ a.st.db.walkDown (a.st.db.entries.length + 2) last.id := by
+    have := blockInChain_on_walk a.st.db (numOf_empty _ hI.wf hI.initOk) last.ref last.lib (by rw [hR]; exact hRne)
+    rw [hR] at this; exact this
+  rw [← hI.topSome last hls, hW] at hRwalk
+  have hRQ : R.id ∈ Q := by
+    simp only [List.mem_append, List.mem_reverse, List.mem_cons] at hRwalk
+    rcases hRwalk with h | h | h
+    · exact h
+    · exact absurd h.symm hne
+    · have := hbelow R.id h er hfer; omega
+  obtain ⟨q1, q2, hQ⟩ := List.append_of_mem hRQ
+  have hQ' : Q = (q1 ++ [R.id]) ++ q2 := by rw [hQ]; simp
+  have hpS : IsPath a.st.db a.st.db.libRef.id (q1 ++ [R.id]) := by
+    have := hI.path; rw [hQ', isPath_append] at this; exact this.1
+  have hpq2 : IsPath a.st.db R.id q2 := by
+    have := hI.path; rw [hQ', isPath_append] at this
+    simpa using this.2
+  have hnS : a.st.db.libRef.id ∉ q1 ++ [R.id] := fun hm => hI.libNotin (by rw [hQ']; exact List.mem_append_left _ hm)
+  have hsegS : seg.map (·.blk.id) = q1 ++ [R.id] :=
+    isPath_unique _ _ _ _ hsp hpS (by rw [hstop]; simp) hsn' hnS
+  have hQnd := isPath_nodup _ _ Q hI.path hI.libNotin
+  have hRq2 : R.id ∉ q2 := by
+    rw [hQ] at hQnd
+    have := (List.nodup_append.mp hQnd).2.1
+    exact (List.nodup_cons.mp this).1
+  have hnumR : er.blk.num = R.num := hlibok er hfer
+  -- heights above the new LIB
+  have habove : ∀ e ∈ a.st.db.entries, e.blk.parent = R.id → R.num < e.blk.num := by
+    intro e he hpar
+    have := hI.heights.1 e he er (find_mem _ _ er hfer) (by rw [hpar, find_id _ _ er hfer])
+    omega
+  have hq2high : ∀ x ∈ q2, ∀ e, a.st.db.find x = some e → R.num - cfg.kept ≤ e.blk.num := by
+    intro x hx e he
+    have := heights_path _ hI.heights R.id R.num q2 hpq2 habove x hx e he
+    omega
+  -- the events
+  rw [hsegeq, hstalleq]
+  simp only [withFirst]
+  generalize hdb' : (a.st.db.moveLIB R).purgeBeforeLIB cfg.kept = db'
+  have hn1 := processIrr_nofail cfg { a with st := withDb db' a.st } seg b.ref (fun i => (a.st.db.find i).map (·.blk)) ⟨hf, hn⟩
+  obtain ⟨t2, ht2, hrun2⟩ := processStalled_run cfg _ (a.st.db.stalledInSegment seg) b.ref hn1.1 hn1.2.1
+  have hn2 := processStalled_nofail cfg _ (a.st.db.stalledInSegment seg) b.ref ⟨hn1.1, hn1.2.1⟩
+  obtain ⟨seen, hseen⟩ := processIrr_st cfg { a with st := withDb db' a.st } seg b.ref (fun i => (a.st.db.find i).map (·.blk))
+  have hstfin : (processStalled cfg (processIrr cfg { a with st := withDb db' a.st } seg b.ref
+      (fun i => (a.st.db.find i).map (·.blk))) (a.st.db.stalledInSegment seg) b.ref).st =
+      { withDb db' a.st with lastLIBSeen := seen } := by
+    rw [processStalled_st, hseen]
+  have hlibfin : db'.libRef = R := by rw [← hdb']; rfl
+  refine ⟨hn2.1, hn2.2.1, irrEvents cfg seg b.ref (fun i => (a.st.db.find i).map (·.blk)) ++ t2, q2, ?_, ?_, ?_⟩
+  · rw [ht2, hn1.2.2, List.append_assoc]
+  · rw [run_append, hstfin]
+    simp only [withDb, hlibfin]
+    have hbs : (seg.map (fun e => ((a.st.db.find e.blk.id).map (·.blk)).getD e.blk)).map (·.id) = seg.map (·.blk.id) := by
+      rw [List.map_map]
+      apply List.map_congr_left
+      intro e _
+      simp only [Function.comp]
+      cases hfe : a.st.db.find e.blk.id with
+      | none => rfl
+      | some e0 => simp [find_id _ _ e0 hfe]
+    have hrunirr : (⟨a.st.db.libRef.id, Q⟩ : CS).run (irrEvents cfg seg b.ref (fun i => (a.st.db.find i).map (·.blk))) =
+        some ⟨R.id, q2⟩ := by
+      unfold CS.run
+      rw [irrEvents_sb cfg hirr]
+      have hQ2 : Q = (seg.map (fun e => ((a.st.db.find e.blk.id).map (·.blk)).getD e.blk)).map (·.id) ++ q2 := by
+        rw [hbs, hsegS]; exact hQ'
+      rw [hQ2, runSB_irrs, hbs, hstop]
+    rw [hrunirr]
+    simp only [Option.bind_some]
+    exact hrun2 _
+  · rw [hstfin]
+    apply inv_seen
+    have hfind : ∀ x ∈ q2, ∃ e, a.st.db.find x = some e := by
+      intro x hx
+      have := isPath_present _ _ _ hpq2 x hx
+      cases hfx : a.st.db.find x with
+      | none => rw [hfx] at this; cases this
+      | some e => exact ⟨e, rfl⟩
+    refine ⟨hI.noInit, by simp only [withDb, hlibfin]; exact hRne, ?_, ?_, ?_, ?_, ?_, ?_, ?_, ?_, ?_⟩
+    · simp only [withDb]; rw [← hdb']; exact wf_purge _ _ _ hI.wf
+    · simp only [withDb]; rw [← hdb']; exact heights_movePurge _ hI.wf hI.heights R cfg.kept er hfer hnumR
+    · simp only [withDb, hlibfin]; rw [← hdb']; exact isPath_movePurge _ _ _ _ _ hpq2 hq2high
+    · simp only [withDb, hlibfin]; exact hRq2
+    · intro x hx
+      obtain ⟨e, he⟩ := hfind x hx
+      simp only [withDb]; rw [← hdb', isSent_movePurge _ _ _ x e he (hq2high x hx e he)]
+      exact hI.pSent x (by rw [hQ]; simp [hx])
+    · intro l hl
+      simp only [withDb] at hl ⊢
+      rw [hlibfin]
+      have := hI.topSome l hl
+      rw [hQ', topOf_append] at this
+      simpa using this
+    · intro hnone
+      simp only [withDb] at hnone
+      rw [hls] at hnone; cases hnone
+    · intro c cs hc hpre
+      simp only [withDb, hlibfin] at hc hpre
+      exact absurd (hpre.trans (hcr c cs hc)).symm hne
+    · intro i n hin
+      simp only [withDb] at hin
+      rw [← hdb'] at hin
+      simp [DB.purgeBeforeLIB] at hin
 
 end BstreamVerif.Forkable
